@@ -182,6 +182,14 @@ func (db *DB) FindInBatches(dest interface{}, batchSize int, fc func(tx *DB, bat
 		batch        int
 	)
 
+	// group the user's conditions, so that the batch cursor condition added below applies to all of them
+	if c, ok := tx.Statement.Clauses["WHERE"]; ok {
+		if where, ok := c.Expression.(clause.Where); ok && len(where.Exprs) > 0 {
+			c.Expression = clause.Where{Exprs: []clause.Expression{clause.And(where.Exprs...)}}
+			tx.Statement.Clauses["WHERE"] = c
+		}
+	}
+
 	// user specified offset or limit
 	var totalSize int
 	if c, ok := tx.Statement.Clauses["LIMIT"]; ok {
